@@ -382,10 +382,16 @@ theorem and_keys_ulist (d : D V) (ks : List String) (hd : (keys d).Nodup) :
     keys (andKeys d ks) = USet.andList (keys d) ks := by
   rw [(and_keys d ks hd).1, ulist_inter _ _ hd]
 
-/-- `d + other` for a receiver that is not a `Dict` (dictattr proper and its other subclasses) is `{**d, **other}` for
-ALL value types — also dict values are simply replaced -/
-theorem add_class (d : D V) [TreeAdd V] (o : List (String × V)) (hc : d.cls ≠ 1) : addC d o = .ok (add d o) := by
+/-- `d + other` for a receiver that is neither `Dict` nor a subclass of `Dict` (`isDictLike`: they inherit `Dict.__add__` =
+`tree_update`; review s2 F1: `class D2(Dict)` merges, so the earlier hypothesis `d.cls ≠ 1` claimed too much) — dictattr
+proper and its other subclasses — is `{**d, **other}` for ALL value types: also dict values are simply replaced -/
+theorem add_class (d : D V) [TreeAdd V] (o : List (String × V)) (hc : isDictLike d.cls = false) : addC d o = .ok (add d o) := by
   simp [addC, hc, pure, Except.pure]
+
+/-- the class tags of the harness: plain dict (0), `dictattr` (2), a bare subclass of `dictattr` (3) -/
+theorem add_class_tags (d : D V) [TreeAdd V] (o : List (String × V)) (hc : d.cls = 0 ∨ d.cls = 2 ∨ d.cls = 3) :
+    addC d o = .ok (add d o) :=
+  add_class d o (by rcases hc with h | h | h <;> simp [isDictLike, h])
 
 end dictattr
 
@@ -441,7 +447,7 @@ instance : LawfulTreeAdd Val where
 is `{**d, **other}` like for every other class — whatever `d` holds (a dict value of `d` is then replaced as a whole). -/
 theorem dict_add_flat (d : D Val) (o : List (String × Val)) (ho : ∀ kv ∈ o, ∀ s, kv.2 ≠ .dict s)
     (hn : (o.map (·.1)).Nodup) : addC d o = .ok (add d o) := by
-  by_cases hc : d.cls = 1
+  by_cases hc : isDictLike d.cls = true
   · have hp : ((o.map fun kv => (([kv.1] : Path), kv.2)).map (·.1)).Nodup := by
       rw [List.map_map]
       have : ((fun x : Path × Val => x.1) ∘ fun kv : String × Val => ([kv.1], kv.2)) = fun kv => [kv.1] := rfl
@@ -455,7 +461,7 @@ theorem dict_add_flat (d : D Val) (o : List (String × Val)) (ho : ∀ kv ∈ o,
       simp
     simp only [addC, hc, if_true, TreeAdd.treeAdd, itemsToTree, items, itemsKVs_flat o ho, hp, not_true_eq_false,
       if_false, he, Bool.false_eq_true, foldl_setKVs_flat, pure, Except.pure, Except.map, add]
-  · exact add_class d o hc
+  · exact add_class d o (by simpa using hc)
 
 /-- ... and with dict values `Dict + other` is C15's recursive merge (`other` with distinct keys and no empty branch at
 any depth): `Tree.mergeKVs`, characterised key by key by `C15.merge_lookup` / `mergeAt_leaf` / `mergeAt_branch` — a dict
@@ -464,6 +470,16 @@ below); the property text of C15 governs this case. -/
 theorem dict_add_is_merge (d : D Val) (o : List (String × Val)) (hc : d.cls = 1)
     (hw : wf (.dict o) = true) (hn : noEmpty (.dict o) = true) :
     addC d o = .ok ⟨1, mergeKVs [] d.items o⟩ := by
+  have h1 : isDictLike d.cls = true := by simp [isDictLike, hc]
+  obtain ⟨c, its⟩ := d
+  simp only at hc; subst hc
+  simp only [addC, h1, if_true, TreeAdd.treeAdd, itemsToTree_items [] its o hw hn, Except.map]
+
+/-- the same for `Dict` AND every subclass of `Dict` (`class D2(Dict)` inherits `__add__`): the result keeps the receiver's
+class and is the recursive merge -/
+theorem dictlike_add_is_merge (d : D Val) (o : List (String × Val)) (hc : isDictLike d.cls = true)
+    (hw : wf (.dict o) = true) (hn : noEmpty (.dict o) = true) :
+    addC d o = .ok ⟨d.cls, mergeKVs [] d.items o⟩ := by
   simp only [addC, hc, if_true, TreeAdd.treeAdd, itemsToTree_items [] d.items o hw hn, Except.map]
 
 /-- key by key: `Dict + other` differs from `{**d, **other}` only under keys that hold a dict on BOTH sides (there the
@@ -857,6 +873,10 @@ example : addC ⟨1, [("a", .dict [("x", vi 1)]), ("b", vi 2)]⟩ [("a", Val.dic
     .ok ⟨1, [("a", .dict [("x", vi 1), ("y", vi 2)]), ("b", vi 2)]⟩ := rfl
 example : addC ⟨2, [("a", .dict [("x", vi 1)]), ("b", vi 2)]⟩ [("a", Val.dict [("y", vi 2)])] =
     .ok ⟨2, [("a", .dict [("y", vi 2)]), ("b", vi 2)]⟩ := rfl
+/-- `class D2(Dict): pass; D2(a = {'x': 1}, b = 2) + {'a': {'y': 2}}` merges too (tag 4), and stays a `D2` -/
+example : addC ⟨4, [("a", .dict [("x", vi 1)]), ("b", vi 2)]⟩ [("a", Val.dict [("y", vi 2)])] =
+    .ok ⟨4, [("a", .dict [("x", vi 1), ("y", vi 2)]), ("b", vi 2)]⟩ := rfl
+example : isDictLike 4 = true ∧ isDictLike 3 = false ∧ isDictLike 2 = false := by decide
 /-- K1: the key `keys` of a dictattr: `d['keys']` is 1, `d.keys` is the bound method -/
 example : DAHeap.step [⟨2, [("keys", vi 1)]⟩] (.getItem 0 "keys") = .ok ([⟨2, [("keys", vi 1)]⟩], .val (vi 1)) ∧
     DAHeap.step [⟨2, [("keys", vi 1)]⟩] (.getAttr 0 "keys") = .ok ([⟨2, [("keys", vi 1)]⟩], .method) :=
